@@ -220,6 +220,9 @@ func (c *obsCore) Write(e zapcore.Entry, fs []zapcore.Field) error {
 		}
 		s.mu.Lock()
 		s.notes[key]++
+		if txh, ok := fieldStr(fs, "tx"); ok {
+			s.txNotes[txh]++
+		}
 		for i := len(s.scans) - 1; i >= 0; i-- {
 			if s.scans[i].Open {
 				s.scans[i].Notes = append(s.scans[i].Notes, key)
@@ -492,7 +495,10 @@ func (sc *scen) runStep(si int, st *step) {
 	sim := sc.sim
 	sim.mu.Lock()
 	lk0, sc0 := len(sim.lookups), len(sim.scans)
-	_ = sim.head
+	txNotes0 := 0
+	if st.Op == "log" {
+		txNotes0 = sim.txNotes[hID(kindTx, uint64(st.Tx)).Hex()]
+	}
 	sim.mu.Unlock()
 	g := group{Step: si}
 	var reobsInfo *mReobs
@@ -593,7 +599,8 @@ func (sc *scen) runStep(si int, st *step) {
 						return true
 					}
 				}
-				return false
+				// ... or a scan that followed the insertion has already said something about this transaction (e.g. "observation timed out")
+				return sim.txNotes[hID(kindTx, uint64(st.Tx)).Hex()] > txNotes0
 			})
 		}
 		if !ok {
@@ -735,7 +742,10 @@ func (sc *scen) runStep(si int, st *step) {
 		sim.mu.Unlock()
 		if !headErr {
 			// let the barrier request finish too (its receipt lookup is the last thing it does)
-			waitUntil(rendezvousTimeout, func() bool {
+			if !waitUntil(rendezvousTimeout, func() bool {
+				if sc.died.Load() != nil {
+					return true
+				}
 				sim.mu.Lock()
 				defer sim.mu.Unlock()
 				for i := len(sim.lookups) - 1; i >= lk0; i-- {
@@ -744,7 +754,9 @@ func (sc *scen) runStep(si int, st *step) {
 					}
 				}
 				return false
-			})
+			}) {
+				sc.harnessf("step %d: the re-observation goroutine never asked for the receipt of the barrier request (its head read fails or hangs)", si)
+			}
 		} else {
 			time.Sleep(5 * time.Millisecond)
 		}
@@ -925,14 +937,14 @@ func (sc *scen) runStep(si int, st *step) {
 				case lk.BH != bhOfTS(m.TS):
 					rwhy = "other-block"
 				case lk.Blk+e > lk.Head:
-					rwhy = "before-depth-at-receipt-time"
+					rwhy = fmt.Sprintf("before-depth-at-receipt-time: receipt block %d + %d confirmations > %d, the node's head (finalized-height mode: %v) when the receipt was served", lk.Blk, e, lk.Head, sc.cfg.Finalized)
 				default:
 					reobsJ[key] = true
 				}
 			}
 			reobsWhy[key] = rwhy
 			if !reobsJ[key] && !scanJ[key] {
-				sc.monf("safety:reobs:"+rwhy, "step %d: re-observation of tx %d forwarded body %d (%s); lookups %+v", si, st.Tx, m.Body, rwhy, lookups)
+				sc.monf("safety:reobs:"+strings.SplitN(rwhy, ":", 2)[0], "step %d: re-observation of tx %d forwarded body %d (%s); lookups %+v", si, st.Tx, m.Body, rwhy, lookups)
 				continue
 			}
 		}
@@ -951,7 +963,7 @@ func (sc *scen) runStep(si int, st *step) {
 		}
 		if max > 0 && n > max {
 			if rw, isReobs := reobsWhy[key]; isReobs && !reobsJ[key] {
-				sc.monf("safety:reobs:"+rw, "step %d: re-observation of tx %d forwarded the message of seq %d (%s) in addition to the per-head scan; lookups %+v", si, key[0], key[3], rw, lookups)
+				sc.monf("safety:reobs:"+strings.SplitN(rw, ":", 2)[0], "step %d: re-observation of tx %d forwarded the message of seq %d (%s) in addition to the per-head scan; lookups %+v", si, key[0], key[3], rw, lookups)
 			} else {
 				sc.monf("safety:forwarded-twice", "step %d: message of tx %d seq %d forwarded %d times in one step", si, key[0], key[3], n)
 			}
@@ -1009,8 +1021,18 @@ func (sc *scen) runStep(si int, st *step) {
 					if past {
 						k = "liveness:head-jump-past-window"
 					}
-					sc.monf(k, "step %d: tx %d (block %d, level %d, receipt unchanged: status 1, same block) not forwarded at head %d, the first head >= %d; still pending: %v; lookups in this scan: %d",
-						si, inst.log.Tx, inst.block, inst.log.CL, s.N, inst.block+e, stillPending, len(lks))
+					asked := 0
+					for _, lk := range lks {
+						if lk.Tx == inst.log.Tx {
+							asked++
+						}
+					}
+					how := "not forwarded"
+					if !stillPending && asked == 0 {
+						how = "ABANDONED WITHOUT A RECEIPT LOOKUP (the node was never asked to confirm it), not forwarded"
+					}
+					sc.monf(k, "step %d: confirmable message of tx %d (block %d, level %d, receipt unchanged: status 1, same block) %s at head %d, the first observed head >= %d; still pending: %v; receipt lookups for it in this scan: %d",
+						si, inst.log.Tx, inst.block, inst.log.CL, how, s.N, inst.block+e, stillPending, asked)
 				} else if last && stillPending {
 					sc.monf("liveness:forwarded-still-pending", "step %d: tx %d forwarded but still pending", si, inst.log.Tx)
 				}
@@ -1073,7 +1095,7 @@ func runScenario(sid int, cfg scenCfg, script []step) histRow {
 	sc.sim.mu.Lock()
 	for k, v := range sc.sim.numStrs {
 		sc.stats["poll_"+k] += v
-		if (cfg.Finalized && k != "finalized") || (!cfg.Finalized && k != "latest") {
+		if (cfg.Finalized && k != "finalized") || (!cfg.Finalized && k != "latest" && k != "eth_blockNumber") {
 			sc.monf("safety:head-source", "the watcher asked the node for block %q %d times (finalized-height mode: %v)", k, v, cfg.Finalized)
 		}
 	}
@@ -1303,6 +1325,11 @@ func corpus() []struct {
 		{scenCfg{Wait: true, Head0: 1000, PollMs: 1, Name: "reobs-depth-and-filters"},
 			[]step{lg(1, 1, 1000, 2), {Op: "reobs", Tx: 1}, {Op: "reobs", Tx: 1, Bump: 5}, {Op: "reobs", Tx: 1, Extras: []extraLog{{Kind: "foreignaddr", Body: 50, Em: 1, Seq: 50, CL: 0}, {Kind: "legit", Body: 51, Em: 2, Seq: 51, CL: 0}}},
 				{Op: "reobs", Tx: 1, Bump: 1}, hd(1010)}},
+		{scenCfg{Wait: false, Finalized: true, Head0: 100, PollMs: 1, Name: "finality-stalls-then-jumps"}, []step{lg(1, 1, 130, 1), hd(195), hd(196)}},
+		{scenCfg{Wait: false, Finalized: true, Head0: 1000, PollMs: 1, Name: "reobs-mined-but-not-final"},
+			[]step{lg(1, 1, 1020, 1), {Op: "reobs", Tx: 1}, hd(1019), {Op: "reobs", Tx: 1}, hd(1025), {Op: "reobs", Tx: 1}}},
+		{scenCfg{Wait: false, Finalized: true, Head0: 1000, PollMs: 1, Name: "reobs-not-final-nothing-pending"},
+			[]step{{Op: "log", Tx: 1, Body: 1, Em: 1, Seq: 1, CL: 1, Block: 1000, BH: 1}, hd(1001), {Op: "reorg", Tx: 1, How: "moved", BH: 9, Block: 1030}, {Op: "reobs", Tx: 1}, hd(1031), {Op: "reobs", Tx: 1}}},
 		{scenCfg{Wait: false, Head0: 1000, PollMs: 1, Name: "no-wait-mode"}, []step{lg(1, 1, 1001, 200), hd(1001), lg(2, 2, 1001, 15), hd(1002)}},
 	}
 }
